@@ -99,7 +99,7 @@ def bounds(tier, seed):
         n_data=len(_datas(tier, seed)),
         top_n=5 if tier == "quick" else 6,
         schedules="all increasing schedules ending in n (2^(n-1)), every n <= top",
-        threshold_variants=["none", "unreachable from the start", "unreachable, set before the last leg"] + (["relative unreachable"] if tier == "thorough" else []),
+        threshold_variants=["none", "unreachable from the start", "unreachable, set before the last leg", "tight absolute (0.999 x smallest cold score)", "tight relative (0.999 x smallest cold ratio to the first score)"] + (["relative unreachable"] if tier == "thorough" else []),
         seed=seed,
     )
 
@@ -127,7 +127,7 @@ def cases(group):
         inits = [0, N - 1]
     if kind == "FPS":
         inits.append("random")
-    variants = ["none", "from-start", "before-last"] + (["relative"] if tier == "thorough" else [])
+    variants = ["none", "from-start", "before-last", "tight-abs", "tight-rel"] + (["relative"] if tier == "thorough" else [])
     for init in inits:
         for v in variants:
             yield dict(kind=kind, dir=d, X=X, y=y, cfg=cfg, init=init, thr=v, top=5 if tier == "quick" else 6)
@@ -198,6 +198,7 @@ def check(case):
     # cold fits for every n (the reference state for each abstract key)
     cold = {}
     tie = None
+    cold_scores = None
     for n in range(1, top + 1):
         s = _mk(kind, d, cfg, init, n)
         rec = sel.ScoreRecorder(s) if n == top else None
@@ -209,6 +210,7 @@ def check(case):
         cold[n] = s
         if rec is not None and rec.ok:
             tie = _tie_step(rec.scores, [int(i) for i in s.selected_idx_], n_pre)
+            cold_scores = rec.scores
     idx_top = [int(i) for i in cold[top].selected_idx_]
     if len(set(idx_top)) != len(idx_top):
         return r.skip("candidates exhausted before n (C01's domain)")
@@ -237,6 +239,17 @@ def check(case):
 
     # ---- every increasing schedule, state compared after every leg
     thr = case["thr"]
+    tight = None
+    if thr in ("tight-abs", "tight-rel"):
+        # a threshold just below every score of the cold run: never reached by the cold fit, so no chain may stop
+        # only the steps at which the score is well defined (before the first tie / degenerate spectrum)
+        if limit < 2:
+            return r.skip("no well-defined score sequence for a tight threshold")
+        top = limit
+        ms = [float(np.max(v)) for v in (cold_scores or [])[: limit - n_pre] if np.size(v)]
+        if len(ms) < 1 or min(ms) <= 0 or not np.isfinite(ms).all():
+            return r.skip("no positive score sequence for a tight threshold")
+        tight = 0.999 * min(ms) if thr == "tight-abs" else 0.999 * min(m / ms[0] for m in ms)
     full_compares = 0
     for n in range(2, top + 1):
         for sched in fam.increasing_schedules(n, start_min=max(1, n_pre)):
@@ -252,6 +265,10 @@ def check(case):
                             s = _mk(kind, d, cfg, init, form, -1.0)
                         elif thr == "relative":
                             s = _mk(kind, d, cfg, init, form, -1.0, "relative")
+                        elif thr == "tight-abs":
+                            s = _mk(kind, d, cfg, init, form, tight)
+                        elif thr == "tight-rel":
+                            s = _mk(kind, d, cfg, init, form, tight, "relative")
                         else:
                             s = _mk(kind, d, cfg, init, form)
                     else:
